@@ -224,9 +224,119 @@ template <class G> static void short_s12(Ctx& ctx, const char* bname, const G& g
   }
 }
 
+// ------------------------------------------------------------------ rhumb anchors (closed forms; no library area code)
+static const double TOL_THIN_ABS = 1.0e-6;   // thin-rhumb-triangles: m^2 (a/aWGS84)^2, plus K_THIN eps sum|S12|
+static const double K_THIN       = 16;       // (observed worst err/tol: see evidence; 4 x clean worst <= 1)
+static const double TOL_ZONE_REL = 2.5e-13;  // rhumb-zones: |area - closed form| / ellipsoid area (observed worst 5.8e-14)
+static const double TOL_ZONE_REL_95 = 1.4e-12; // the same for |n| > 0.9 (observed worst 3.3e-13 at n = 0.95)
+
+static ld rho_area(ld a, ld f, ld phi) {       // dA = rho dphi dlambda (radians)
+  ld e2 = f * (2 - f), s = sinl(phi), c = cosl(phi), w = 1 - e2 * s * s;
+  return a * a * (1 - e2) * c / (w * w);
+}
+static ld hpsi(ld f, ld phi) {                 // dphi/dpsi
+  ld e2 = f * (2 - f), s = sinl(phi);
+  return cosl(phi) * (1 - e2 * s * s) / (1 - e2);
+}
+static ld psi_iso(ld f, ld phi) {
+  ld e2 = f * (2 - f), s = sinl(phi), t = asinhl(tanl(phi));
+  if (e2 > 0) { ld e = sqrtl(e2); return t - e * atanhl(e * s); }
+  if (e2 < 0) { ld e = sqrtl(-e2); return t + e * atanl(e * s); }
+  return t;
+}
+// Int q dlambda along the rhumb line from (lat1, lon) over dlam (radians) to lat2: dlam x mean of q over psi
+static ld rhumb_edge_integral(ld a, ld f, double lat1, double lat2, ld dlam, ld* conv) {
+  if (conv) *conv = 0;
+  if (lat1 == lat2) return dlam * qdeg((double)a, (double)f, lat1);
+  if (dlam == 0) return 0;
+  ld p1 = (ld)lat1 * DEG, p2 = (ld)lat2 * DEG, dpsi = psi_iso(f, p2) - psi_iso(f, p1);
+  const int N = 4096; std::vector<ld> y(N + 1);
+  for (int i = 0; i <= N; ++i) { ld p = p1 + (p2 - p1) * i / N; y[i] = qzone(a, f, sinl(p)) / hpsi(f, p); }
+  auto simpson = [&](int step) { ld t = 0; int M = N / step; for (int i = 0; i <= M; ++i) t += (i == 0 || i == M ? 1 : (i & 1 ? 4 : 2)) * y[i * step]; return t * ((p2 - p1) / M) / 3; };
+  ld s1 = simpson(1), s2 = simpson(2);
+  if (conv) *conv = fabsl((s1 - s2) / 15 * dlam / dpsi);
+  return (s1 + (s1 - s2) / 15) * dlam / dpsi;
+}
+
+static void thin_rhumb(Ctx& ctx) {
+  ctx.sub("thin-rhumb-triangles");
+  ctx.bound("thin-rhumb-triangles", "(phi,0)->(phi+d,L)->(phi+d,0): phi in {0.5,20,45,60,85,-70} x d in {1e-15,1e-14,3e-14,1e-13,1e-12,1e-11,1e-10,1e-8,1e-6} deg (the exact double difference is used) x L in {1,30,120} deg; Rhumb series and exact on WGS84, exact on f=0.5 and f=-0.5; PolygonAreaRhumb via AddPoint+Compute and via TestPoint against 1/2 L d (rho + d (kappa rho/6 + 2 rho'/3))");
+  static const double PHI[] = {0.5, 20, 45, 60, 85, -70}, DD[] = {1e-15, 1e-14, 3e-14, 1e-13, 1e-12, 1e-11, 1e-10, 1e-8, 1e-6}, LL[] = {1, 30, 120};
+  struct E { const char* name; double a, f; bool exact; };
+  static const E ES[] = {{"WGS84-series", AW, FW, false}, {"WGS84-exact", AW, FW, true}, {"f=0.5-exact", AW, 0.5, true}, {"f=-0.5-exact", AW, -0.5, true}};
+  for (const E& el : ES) {
+    if (!ctx.take()) continue;
+    Rhumb r(el.a, el.f, el.exact);
+    for (double phi : PHI) for (double d0 : DD) for (double L : LL) {
+      Ctx::Case cs(ctx);
+      double phi2 = phi + d0;
+      ld d = ((ld)phi2 - (ld)phi) * DEG;                      // exact difference of the two doubles
+      if (d == 0) { ctx.count("thin_triangles_d_below_one_ulp"); continue; }
+      ld p1 = (ld)phi * DEG, Lr = (ld)L * DEG, hstep = 1e-5L;
+      ld rho = rho_area(el.a, el.f, p1), drho = (rho_area(el.a, el.f, p1 + hstep) - rho_area(el.a, el.f, p1 - hstep)) / (2 * hstep);
+      ld kappa = (hpsi(el.f, p1 + hstep) - hpsi(el.f, p1 - hstep)) / (2 * hstep) / hpsi(el.f, p1);
+      ld want = Lr * d / 2 * (rho + d * (kappa * rho / 6 + 2 * drho / 3));
+      double S1, S2, t; r.Inverse(phi, 0, phi2, L, t, t, S1); r.Inverse(phi2, L, phi2, 0, t, t, S2);
+      double tol = TOL_THIN_ABS * (el.a / AW) * (el.a / AW) + K_THIN * EPS * (std::fabs(S1) + std::fabs(S2));
+      std::string key = std::string(el.name) + " phi=" + fmt(phi) + " d=" + fmt(d0) + " L=" + fmt(L);
+      for (int via = 0; via < 2; ++via) {
+        PolygonAreaRhumb pa(r); double per, area;
+        pa.AddPoint(phi, 0); pa.AddPoint(phi2, L);
+        if (via == 0) { pa.AddPoint(phi2, 0); pa.Compute(false, true, per, area); } else pa.TestPoint(phi2, 0, false, true, per, area);
+        double err = (double)fabsl((ld)area - want);
+        ctx.worst("thin-rhumb.area_err_over_tol", err / tol, key);
+        if (!(err <= tol))
+          ctx.fail(key + (via ? " TestPoint" : " Compute"), "thin rhumb triangle area " + fx(area) + " but 1/2 L d rho = " + mc::fmtl(want) + " (ratio " + fmt((double)((ld)area / want)) + ", tol " + fmt(tol) + ")",
+                   {{"kind", "thin-rhumb-triangle"}, {"ellipsoid", el.name}, {"phi", fmt(phi)}, {"d", fmt(d0)}, {"L", fmt(L)}, {"via", via ? "TestPoint" : "Compute"}});
+      }
+      ctx.sig((uint64_t)(phi + 100) * 1000 + (uint64_t)L + (uint64_t)(-std::log10(d0)) * 100000);
+      if (ctx.want_sample()) ctx.sample(key + " closed form " + mc::fmtl(want));
+    }
+  }
+}
+
+static void rhumb_zones(Ctx& ctx) {
+  ctx.sub("rhumb-zones");
+  ctx.bound("rhumb-zones", "Rhumb(exact) on a=6378137, third flattening n in {WGS84, 1/3, +-0.5, +-0.7, +-0.75, +-0.8, +-0.85, +-0.9, 0.95} (and Rhumb series on WGS84): quadrilaterals (0,0)(0,90)(phi,90)(phi,0), phi in {30,60,85,-45}, against the closed-form zone area q(phi) pi/2, and the polygon (10,0)(50,40)(70,100)(-20,130) against Int q dlambda along the rhumb edges (lambda linear in the closed-form isometric latitude; Simpson 4096 in latitude, long double)");
+  static const double NS[] = {0, 1.0 / 3, 0.5, -0.5, 0.7, -0.7, 0.75, -0.75, 0.8, -0.8, 0.85, -0.85, 0.9, -0.9, 0.95};
+  const std::vector<std::vector<Pt>> polys = {
+    {{0, 0}, {0, 90}, {30, 90}, {30, 0}}, {{0, 0}, {0, 90}, {60, 90}, {60, 0}}, {{0, 0}, {0, 90}, {85, 90}, {85, 0}}, {{0, 0}, {0, 90}, {-45, 90}, {-45, 0}},
+    {{10, 0}, {50, 40}, {70, 100}, {-20, 130}}};
+  for (int ei = -1; ei < (int)(sizeof NS / sizeof NS[0]); ++ei) {
+    if (!ctx.take()) continue;
+    double n = ei <= 0 ? FW / (2 - FW) : NS[ei], f = ei <= 0 ? FW : 2 * n / (1 + n), a = AW;
+    bool exact = ei >= 0;
+    Rhumb r(a, f, exact);
+    double A0 = r.EllipsoidArea();
+    for (size_t pi = 0; pi < polys.size(); ++pi) {
+      Ctx::Case cs(ctx);
+      const auto& P = polys[pi];
+      ld want = 0, conv = 0;
+      for (size_t i = 0; i < P.size(); ++i) {
+        const Pt &p = P[i], &q = P[(i + 1) % P.size()]; ld c;
+        want -= rhumb_edge_integral(a, f, p.lat, q.lat, (ld)(q.lon - p.lon) * DEG, &c); conv += c;
+      }
+      std::string key = std::string(exact ? "exact" : "series") + " n=" + fmt(n) + " " + pts(P);
+      if (!((double)conv <= 0.1 * ::TOL_ZONE_REL * A0)) { ctx.count("rhumb_oracle_not_converged"); ctx.list("rhumb_oracle_not_converged", key); continue; }
+      PolygonAreaRhumb pa(r); for (auto& v : P) pa.AddPoint(v.lat, v.lon);
+      double per, area; pa.Compute(false, true, per, area);
+      double rel = (double)fabsl((ld)area - want) / A0;
+      const double TOL_ZONE_REL = std::fabs(n) > 0.9 ? TOL_ZONE_REL_95 : ::TOL_ZONE_REL;
+      { char bn[64]; snprintf(bn, sizeof bn, "rhumb-zones.rel_err.%s_n_%+.3f", exact ? "exact" : "series", n); ctx.worst(bn, rel, key); }
+      ctx.worst("rhumb-zones.area_err_over_tol", rel / TOL_ZONE_REL, key);
+      ctx.sig((uint64_t)(ei + 2) * 16 + pi);
+      if (!(rel <= TOL_ZONE_REL))
+        ctx.fail(key, "PolygonAreaRhumb area " + fx(area) + " but the closed form gives " + mc::fmtl(want) + " (difference " + fmt((double)((ld)area - want)) + " m^2 = " + fmt(rel) + " of the ellipsoid area; tol " + fmt(TOL_ZONE_REL) + ")",
+                 {{"kind", "rhumb-zone-area"}, {"n", fmt(n)}, {"exact", fmti(exact)}, {"polygon", pts(P)}});
+    }
+  }
+}
+
 int main(int argc, char** argv) {
   Ctx ctx(argc, argv);
   narr_rows(ctx);
+  thin_rhumb(ctx);
+  rhumb_zones(ctx);
 
   const std::vector<std::vector<Pt>> polys = {
     {{47.10, 8.20}, {46.60, 8.95}, {47.25, 9.85}},                            // 60-110 km, mid latitude
